@@ -703,15 +703,19 @@ func (fr *frame) store(instr ssa.Instruction, p Value, v Value) {
 func (fr *frame) checkIndex(instr ssa.Instruction, idxV ssa.Value, n int) *Term {
 	e := fr.e
 	idx := fr.toInt64(idxV)
+	e.obligations++
 	if idx.IsConst() {
 		if sval(64, idx.c) < 0 || sval(64, idx.c) >= int64(n) {
 			fr.throw("index out of range", instr)
 		}
+		e.discharged++
+		e.concreteObl++
 		return idx
 	}
 	if !e.branch(e.ts.Ult(idx, e.ts.Const(64, uint64(n)))) {
 		fr.throw("index out of range", instr)
 	}
+	e.discharged++
 	return idx
 }
 
@@ -823,8 +827,13 @@ func (fr *frame) slice(instr *ssa.Slice) Value {
 		mx = fr.toInt64(instr.Max)
 	}
 	ok := ts.And(ts.And(ts.Sle(ts.Const(64, 0), lo), ts.Sle(lo, hi)), ts.And(ts.Sle(hi, mx), ts.Sle(mx, ts.Const(64, uint64(cp)))))
+	e.obligations++
 	if !e.branch(ok) {
 		fr.throw("slice bounds out of range", instr)
+	}
+	e.discharged++
+	if ok.IsConst() {
+		e.concreteObl++
 	}
 	l := int(e.concretize(lo, 300, "slice low"))
 	h := int(e.concretize(hi, 300, "slice high"))
